@@ -84,7 +84,8 @@ def gen_case(rng, tier, index):
             "iface": rng.choice(["sync", "conc", "conc", "async"]),
             "repeat": rng.random() < 0.5,
             "shuffle": rng.choice([0, 0, 1, 3]),
-            "fp": rng.choice([1, 2, 3, 4]),
+            # ("s": as many readers as the split has shards, and around it)
+            "fp": rng.choice([1, 2, 3, 4, "s", "s", "s+1", "s-1"]),
             "k": rng.randrange(1, 8), "seed": rng.getrandbits(32),
             "sched_seed": rng.getrandbits(48),
             "policy": rng.choice(["starve", "starve", "random", "pct"]),
@@ -209,12 +210,18 @@ def run_iface(case):
         table = env.shard_table(split)
         n_shards = len(table)
         min_size = min(len(x["ids"]) for x in table)
-        T = case["fp"] if iface != "sync" else 0
+        fp = {"s": n_shards, "s+1": n_shards + 1,
+              "s-1": max(1, n_shards - 1)}.get(case["fp"], case["fp"])
+        if fp == n_shards:
+            boundary = 1
+        else:
+            boundary = 0
+        T = fp if iface != "sync" else 0
         b_shards = math.ceil(case["shuffle"] / min_size) + (
             1 if case["shuffle"] else 0)
         slack = 4 * (b_shards + T) + 8
         opts = {"repeat": case["repeat"], "shuffle": case["shuffle"],
-                "fp": case["fp"]}
+                "fp": fp}
         random.seed(case["seed"])
         total = sum(len(x["ids"]) for x in table)
         k = case["k"] if case["repeat"] else min(case["k"], total)
@@ -223,7 +230,7 @@ def run_iface(case):
                               policy_param=0, choices=case.get("choices"),
                               max_steps=150000, pause=case.get("pause", 0.0))
         ctx = (f"{iface} {st['fmt']} shards={n_shards} repeat={case['repeat']}"
-               f" shuffle={case['shuffle']} fp={case['fp']} take={k}")
+               f" shuffle={case['shuffle']} fp={fp} take={k}")
         if rr.deadlock:
             out.update(ok=False, vclass="take_k_does_not_terminate",
                        detail=f"{ctx}: {rr.deadlock}")
@@ -259,6 +266,7 @@ def run_iface(case):
         stats = {"iface_runs": 1, "shard_opens": len(env.opens),
                  "scheduler_decisions": rr.sched.steps if rr.sched else 0}
         probes = {"iface_" + iface: 1, "many_shards": int(n_shards >= 40),
+                  "parallelism_equals_shard_count": boundary,
                   "slow_async_consumer": int(iface == "async" and
                                              bool(case.get("pause"))),
                   "repeat_stream": int(case["repeat"]),
@@ -364,7 +372,8 @@ def reach(agg):
     for name in ("prim_shuffle", "prim_rr", "prim_pool", "prim_pool_rr",
                  "infinite_stream", "consumer_starved", "iface_sync",
                  "iface_conc", "iface_async", "many_shards", "repeat_stream",
-                 "rust_harness", "slow_async_consumer", "iface_tfdata"):
+                 "rust_harness", "slow_async_consumer", "iface_tfdata",
+                 "parallelism_equals_shard_count"):
         if not p.get(name):
             need.append(f"probe {name} never hit")
     return need
